@@ -307,6 +307,57 @@ func rulesC02(w *World, o *Out) {
 		o.Check("C02.R3", w.FuncKey(top)+"|writes "+which+"|unguarded writer only from governance/genesis/listener", len(bad) == 0, pos,
 			"a cursor writer without a monotonicity guard is reachable from entry classes "+strings.Join(bad, ",")+" (all classes: "+strings.Join(classes, ",")+")")
 	}
+	// the periodic catch-up may only raise a validator's cursor: a validator ahead of the observed cursor (it has a
+	// vote pending) that is set back could vote again, for a different claim, at a nonce it already voted on --
+	// vote de-duplication is per attestation, not per nonce
+	if cu := w.MustFunc(o, skw, "Keeper", "UpdateValidatorNoncesToLatest"); cu != nil {
+		o.Analysed(w.FuncKey(cu))
+		nSel := 0
+		for _, it := range FindCalls(cu, false, isCallee(skw, "Keeper", "IterateValidatorLastEventNonces")) {
+			args := it.Args()
+			mc, isMC := args[len(args)-1].(*ssa.MakeClosure)
+			if !isMC {
+				continue
+			}
+			cb, _ := mc.Fn.(*ssa.Function)
+			if cb == nil || len(cb.Params) < 2 {
+				continue
+			}
+			nonceP := cb.Params[len(cb.Params)-1]
+			for _, b := range cb.Blocks {
+				for _, in := range b.Instrs {
+					sel := false
+					switch x := in.(type) {
+					case ssa.CallInstruction:
+						if cal, okc := CalleeOf(x.Common()); okc && cal.Name == "Set" {
+							sel = true
+						}
+						if bi, isB := x.Common().Value.(*ssa.Builtin); isB && bi.Name() == "append" {
+							sel = true
+						}
+					case *ssa.MapUpdate:
+						sel = true
+					}
+					if !sel {
+						continue
+					}
+					nSel++
+					raises := false
+					for _, f := range FactsAt(in) {
+						if f.Kind != FCmp {
+							continue
+						}
+						x, y := canon(f.X), canon(f.Y)
+						if (f.Op == token.GTR && y == ssa.Value(nonceP) && x != ssa.Value(nonceP)) || (f.Op == token.LSS && x == ssa.Value(nonceP) && y != ssa.Value(nonceP)) {
+							raises = true
+						}
+					}
+					o.Check("C02.R3", "UpdateValidatorNoncesToLatest|a validator's cursor is only ever raised", raises, w.Pos(in.Pos()), "the catch-up must select a validator only under lastObserved > its nonce; one that is ahead (has voted on a pending event) keeps its cursor, otherwise it can vote a second, different claim at the same nonce")
+				}
+			}
+		}
+		o.Count("C02.R3 catch-up selections", nSel, 1)
+	}
 	o.Count("C02.R3 observed-cursor write sites", nObs, 2)
 	o.Count("C02.R3 per-validator-cursor write sites (informational)", nVal, 0)
 
